@@ -333,7 +333,11 @@ def error_matching(ctx):
         expr_fallback = [x for x in body_walk(unit.node) if isinstance(x, ast.IfExp) and isinstance(x.test, ast.Name) and x.test.id in mapped
                          and isinstance(x.orelse, ast.Constant) and x.orelse.value is None]
         for g in [x for x in maps if isinstance(x, ast.Call)]:
-            fallback = [n for n in nones if set(ucfg.ids(n)) and (set(ucfg.ids(n)) <= unknown_side or only_for_unknown(set(ucfg.ids(n))))] + expr_fallback
+            etests = [t.id for t in ucfg.nodes if t.kind == 'test' and not isinstance(t.ast, ast.stmt) and
+                      any(is_error(a, tv) or not_error(a, tv) for truth in (True, False) for a, tv in facts_on_side(t.ast, truth))]
+            after_error = (set(ucfg.reach(list(err_side), avoid=etests)) | err_side) if err_side else set()
+            fallback = [n for n in nones if set(ucfg.ids(n)) and (set(ucfg.ids(n)) <= unknown_side or
+                                                                   (only_for_unknown(set(ucfg.ids(n))) and set(ucfg.ids(n)) & after_error))] + expr_fallback
             ctx.check(bool(fallback), f'{fi.qualname}:error of an unknown action reaches the catch-all slot', g, 'None key tried when the action is not in REQUEST2REPLY',
                       f'`{src(g)}` yields None for an action that is not in REQUEST2REPLY, and that None ends up inside the key (`(None, ident)`) instead of the '
                       'catch-all key None: the error reply to a request with an unknown action is never delivered, its caller waits for the time-out', unit)
